@@ -20,8 +20,9 @@ type VarMock interface {
 type defaultVarMocker struct {
 	targetValue reflect.Value
 	mockValue   interface{}
-	originValue interface{}
-	canceled    bool // canceled 是否被取消
+	originValue reflect.Value // originValue 第一次 mock 之前的变量值(与变量同类型的副本), 仅在 mocked 为 true 时有效
+	mocked      bool          // mocked 变量当前是否持有 mock 值
+	canceled    bool          // canceled 是否被取消
 }
 
 // String mock 的名称或描述, 方便调试和问题排查
@@ -48,6 +49,12 @@ func newVarMocker(targetValue reflect.Value) *defaultVarMocker {
 // Apply 变量取值回调函数, 只会执行一次
 // 注意: Apply 会覆盖之前设定 Set 的值
 func (m *defaultVarMocker) Apply(callback interface{}) {
+	m.doSet(callbackValue(callback))
+	logger.Consolefc(logger.DebugLevel, "mocker [%s] apply.", logger.Caller(5), m.String())
+}
+
+// callbackValue 执行一次 Apply 的回调函数并返回其返回值
+func callbackValue(callback interface{}) interface{} {
 	f := reflect.ValueOf(callback)
 	if f.Kind() != reflect.Func {
 		panic("VarMock Apply argument(callback) must be a func.")
@@ -56,14 +63,15 @@ func (m *defaultVarMocker) Apply(callback interface{}) {
 	if ret == nil || len(ret) != 1 {
 		panic("VarMock Apply callback's returns length must be 1.")
 	}
-
-	m.doSet(ret[0].Interface())
-	logger.Consolefc(logger.DebugLevel, "mocker [%s] apply.", logger.Caller(5), m.String())
+	return ret[0].Interface()
 }
 
-// Cancel 取消 mock
+// Cancel 取消 mock, 恢复第一次 mock 之前的变量值; 没有 mock 过(或已经取消)时不修改变量
 func (m *defaultVarMocker) Cancel() {
-	m.targetValue.Elem().Set(reflect.ValueOf(m.originValue))
+	if m.mocked {
+		m.targetValue.Elem().Set(m.originValue)
+		m.mocked = false
+	}
 	m.canceled = true
 }
 
@@ -80,8 +88,15 @@ func (m *defaultVarMocker) Set(value interface{}) {
 }
 
 func (m *defaultVarMocker) doSet(value interface{}) {
-	m.originValue = m.targetValue.Elem().Interface()
-	d := reflect.ValueOf(value)
-	m.targetValue.Elem().Set(d)
+	target := m.targetValue.Elem()
+	if !m.mocked {
+		// 只保存第一次 mock 之前的值; 用与变量同类型的副本保存, 值为 nil 的接口变量也能恢复
+		origin := reflect.New(target.Type()).Elem()
+		origin.Set(target)
+		m.originValue = origin
+	}
+	target.Set(reflect.ValueOf(value))
+	m.mocked = true
+	m.canceled = false
 	m.mockValue = value
 }
